@@ -9,7 +9,10 @@ RULE = ("random context-free grammars as in C08 (incl. empty-language grammars, 
         "all words of length <=4/5 by the independent membership oracle, and their shape (only useful symbols / no "
         "epsilon production / no unit production / Chomsky forms and is_normal_form()) on the implementation's "
         "result. Non-trivial: >=2 productions, one with a body of length >=2.")
-THEOREMS = ["Pfl.CFG.mk'_wf",
+THEOREMS = ["Pfl.CFG.toNormalForm_isSome",
+            "Pfl.CFG.toNormalForm_fuel_indep",
+            "Pfl.CFG.cleaned_isFastPath_or_empty",
+            "Pfl.CFG.mk'_wf",
             "Pfl.CFG.mk'_prods",
             "Pfl.CFG.removeUseless_lang",
             "Pfl.CFG.removeUseless_useful",
